@@ -253,6 +253,13 @@ theorem step_res {v : Voter} (hI : Inv T Tc strict v) (op : Op) (hop : OpOK T Tc
         | none => cases hsel
         | some sv' => cases hsel; exact hop hs
       · exact hI.env hs vt' sv hsel
+    | insertFailed h =>
+      simp only
+      split
+      · split
+        · exact ⟨hI.core ⟨rfl, rfl, rfl, rfl, rfl, rfl⟩, hnil, Just.nil⟩
+        · exact ⟨hI, hnil, Just.nil⟩
+      · exact ⟨hI, hnil, Just.nil⟩
     | envMax mm => exact ⟨⟨hI.sta, hI.vrf, hI.th, hI.env⟩, hnil, Just.nil⟩
     | envBlock h b => exact ⟨⟨hI.sta, hI.vrf, hI.th, hI.env⟩, hnil, Just.nil⟩
     | envCertErr b => exact ⟨⟨hI.sta, hI.vrf, hI.th, hI.env⟩, hnil, Just.nil⟩
